@@ -8,7 +8,7 @@ COQ_MODEL = "run_frame"
 COQ_OK = "(ok_spec run_frame)"   # the property determines the output uniquely (greedy complete packets), see DESIGN C10
 COQ_INPUT_TYPE = "Z * Z * Z * list (Z * Z) * list Z"
 RULE = ("valid streams of 1-4 small packets cut at EVERY byte offset x {bytes, file r in {None,1,5,7}, socket bytewise/random}; "
-        "empty input; random byte strings; distinct = distinct (kind, k, cut position class, chunking class, #items)")
+        "packets with 256/512/513 (thorough: up to 65536) data bytes cut near their end; empty input; random byte strings; distinct = distinct (kind, k, cut position class, chunking class, #items)")
 ASSUMPTIONS = ["a socket that neither sends nor closes blocks by design (outside the property)",
                "file read(n)/socket recv(n) return the next min(n, remaining) bytes, b'' when exhausted"]
 
@@ -36,6 +36,17 @@ def gen(rng, tier):
                 cuts = sorted(set(rng.randrange(1, len(s)) for _ in range(rng.randrange(1, 5))))
                 fsizes = [y - x for x, y in zip([0] + cuts, cuts + [len(s)])]
                 cases.append({"kind": 1, "k": k, "stream": s.hex(), "sizes": fsizes, "r": "script"})
+    # packets whose length count sits at a byte boundary of the 16-bit field (0x00FF/0x0100, 0x01FF/0x0200, 0x03FF ...), between two
+    # small packets, complete and cut near the end and inside the large packet
+    for nd in ([256, 512, 513] if tier == "quick" else [255, 256, 257, 511, 512, 513, 1024, 1536, 4096, 32768, 32769, 65536]):
+        stream = framing.mk_packet(rng, 3) + framing.mk_packet(rng, nd) + framing.mk_packet(rng, 2)
+        for cutpos in sorted({len(stream), len(stream) - 1, len(stream) - 8, 9 + 6 + nd, 9 + 6 + nd - 1, 9 + 6 + nd - 256, 9 + 6 + nd // 2}):
+            if cutpos < 0:
+                continue
+            st = stream[:cutpos]
+            cases.append({"kind": 0, "k": 0, "stream": st.hex(), "sizes": [], "r": None})
+            cases.append({"kind": 1, "k": 0, "stream": st.hex(), "sizes": framing.file_sizes(st, 4096), "r": 4096})
+            cases.append({"kind": 2, "k": 0, "stream": st.hex(), "sizes": [len(c) for c in framing.cut(st, [300] * (len(st) // 300 + 1))], "r": None})
     # arbitrary byte strings (length fields are arbitrary, so keep them short enough to matter)
     nrand = 150 if tier == "quick" else 6000
     for _ in range(nrand):
